@@ -21,6 +21,7 @@ type OSProfile struct {
 	Preexisting      int    // chance (x/10) that a pool object pre-exists in a generated ownership state
 	Lifecycle        bool   // pause / archive / delete / orphan-delete user operations
 	Violations       bool   // preflight violators
+	StampedManifests bool   // objects in the spec may carry a package-operator.run/revision annotation of their own
 	RecreateOrphaned bool   // an orphan-deleted set may come back under the same name (and then be paused)
 	AdmissionFlip    bool   // admission may start (and stop) refusing an object after the sets were created
 	Delegation       bool   // phases with class default (and hosted-cluster when cfg.Hosted)
@@ -463,6 +464,11 @@ func genTemplateSpec(w *World, g *OSGen, prof OSProfile, i int) map[string]any {
 				variant = 1 + i
 			}
 			entry := map[string]any{"object": mkObject(p, variant, explicit)}
+			if prof.StampedManifests && s.Chance(1, 4, "stamped-manifest") {
+				// a manifest exported from a cluster and pasted into the spec still carries the bookkeeping
+				// annotation of whoever managed it there; the revision recorded on the object is the owner's
+				setAnnotation(entry["object"].(store.Obj), annRevision, []string{"1", "7"}[s.Intn(2, "stamped-value")])
+			}
 			if prof.CondMappings && s.Bool("condition-mapping") {
 				entry["conditionMappings"] = []any{
 					map[string]any{"sourceType": "Ready", "destinationType": "sim.example/Ready"},
